@@ -383,3 +383,114 @@ PROPS['C06'] = {
                    'by model-vs-real comparison on seeded scripts only (partial)'),
     'level_note': 'Trusted: Lean kernel, harness; epoll ready-list semantics modelled; select loop hand-modelled and tied by per-member event sequences',
 }
+
+
+def world_scen(builds, nq, nt):
+    def f(tier, seed):
+        n = nt if tier == 'thorough' else nq
+        out = []
+        for b in builds:
+            for k in range(2):
+                out.append({'build': b, 'args': ['world', '--seed', str(seed + k), '--n', str(n // 2), '--tier', tier]})
+        return out
+    return f
+
+
+def res_scen(nq, nt):
+    def f(tier, seed):
+        n = nt if tier == 'thorough' else nq
+        return [{'args': ['res', '--seed', str(seed + k), '--n', str(n // 4), '--tier', tier]} for k in range(4)]
+    return f
+
+
+def plus(*fs):
+    return lambda tier, seed: [x for f in fs for x in f(tier, seed)]
+
+
+def search_world(run):
+    for b in run.cfg.get('builds', ['default']):
+        for k in range(3):
+            rc, cases, err = vh(['world', '--seed', str(40 + k), '--n', '600'], build=b, timeout=1200)
+            bad = [c for c in cases if c.get('oracle')]
+            if bad or rc != 0:
+                return {'implementation': bad[0] if bad else {'exit': rc, 'stderr': err[-800:]},
+                        'replay_cmd': f'harness/target-{b}/debug/vh world --seed {40 + k} --n 600'}
+            if os.path.exists(DRIVER):
+                for c in cases:
+                    m = driver(c['req'])
+                    if m != c['impl']:
+                        return {'implementation_vs_model': {'case': c['id'], 'requests': c['req'], 'impl': c['impl'], 'model': m},
+                                'replay_cmd': f'harness/target-{b}/debug/vh world --seed {40 + k} --n 600'}
+    return None
+
+
+PROPS['C11'] = {
+    'modules': ['IpcModel.Props.C11'],
+    'theorems': ['C11.C11_own', 'C11.C11_restore', 'C11.C11_close_once', 'Ledger.inv_step', 'Ledger.roots_coincide'],
+    'scenarios': plus(world_scen(['default'], 300, 6000), res_scen(400, 8000)),
+    'search': search_world,
+    'rule': ('world: seeded single-threaded programs of ~40 public-API operations over up to 6 channels (create, clone, drop, send small/multi-packet with embedded senders / '
+             'moved receivers / regions, the three receive calls, drop receiver with backlog): the number of open library descriptors after every step is compared with '
+             'the ledger model, and the descriptor table / shared mappings after the program with the initial ones; res: failing connects, one-shot servers (unused, used with '
+             'the client gone before accept, under an over-long TMPDIR), regions of 12 awkward lengths cloned 0..3 times and sent, receiver sets dropped with members, sends to '
+             'closed receivers, a spawned child listing its inherited descriptors; close-on-exec checked on every new descriptor, interposer ledger checked for failing or foreign '
+             'close() and mismatched munmap; every case is non-trivial; distinct = distinct program / operation list'),
+    'explanation': ('ownership invariant, restore (no leak) and close-once proved for all histories of install/clone/drop; every seeded API program is mapped to such a history and '
+                    'its descriptor count compared after each step; error paths, close-on-exec, mappings and temp files are covered by the res oracle'),
+    'assumptions': ['descriptor numbers are modelled as never reused (creation-order ids); the mapping from API operations to ledger operations is part of the harness',
+                    'close-on-exec, mappings, temp files and error paths of connect/bind/listen are oracle-checked, not modelled'],
+    'level_text': ('Kernel-checked for all histories: every open descriptor is owned by exactly one live handle or Arc group, all handles dropped => every descriptor closed, no '
+                   'descriptor is closed twice or without having been owned; seeded API programs are replayed in the ledger model step by step (descriptor counts), and leaks, '
+                   'inheritance, mappings and temp files are checked on the real process'),
+    'level_note': 'Trusted: Lean kernel, harness (/proc/self/fd, interposer ledger); kernel in-flight descriptor semantics; error paths and FD_CLOEXEC are observed, not proved',
+}
+PROPS['C03'] = {
+    'modules': ['IpcModel.Props.C03'],
+    'theorems': ['C03.C03_roots', 'C03.C03_iff', 'C03.C03_held_sender_connected', 'Ledger.inv_run'],
+    'builds': ['default', 'force-inprocess'],
+    'scenarios': world_scen(['default', 'force-inprocess'], 400, 8000),
+    'search': search_world,
+    'rule': ('seeded histories of clone / embed-in-message / extract / drop-handle / drop-carrying-receiver over an acyclic family of up to 6 channels (handles are embedded only '
+             'in lower-numbered channels), each receive issued as recv, try_recv or try_recv_timeout, followed by a final sweep of try_recv on every held receiver; results '
+             '(message / empty / disconnected / send error) compared with Ideal.run; non-trivial = at least one message carrying handles was received; distinct = distinct program'),
+    'explanation': ('roots_coincide (open descriptor <=> owned by a live handle) proved for all histories; the specification Ideal (disconnected <=> empty queue and no sender handle '
+                    'reachable) stated and its receive clauses proved; the refinement between the transport and Ideal is checked by executing seeded histories, not proved'),
+    'assumptions': ['kernel liveness of a socket = reachability from descriptor tables through queued SCM_RIGHTS packets (Linux)', 'acyclic channel families only',
+                    'wake-up of a blocked receive on last drop is exercised by the race in the sched/crash scenarios of C12, not here'],
+    'level_text': ('Kernel-checked: after any history the open descriptors are exactly those owned by live handles (the roots of kernel liveness and of specification existence '
+                   'coincide), and the specification answers disconnected iff the queue is empty and no sender handle is reachable; the transport-vs-specification refinement '
+                   'itself is established by differential execution of seeded histories on the OS and in-process builds (partial)'),
+    'level_note': 'Trusted: Lean kernel, harness; Linux reachability semantics for in-flight descriptors; the simulation relation is not a theorem',
+}
+PROPS['C09'] = {
+    'modules': ['IpcModel.Props.C09'],
+    'theorems': ['C09.C09_no_hang', 'C09.C09_inv_step', 'C09.C09_error', 'C09.C09_transit'],
+    'scenarios': plus(world_scen(['default'], 300, 6000), lambda tier, seed: [{'args': ['vanish', '--tier', tier], 'timeout': 600}]),
+    'search': search_world,
+    'rule': ('vanish: receiver dropped before the send (sizes from 10 bytes to 4 MiB, with and without attachments), dropped 0/5/40 ms into a 4 MiB send that is blocked on full '
+             'socket buffers (10 s watchdog), and a child process with SIGPIPE at its default disposition; world: sends to channels whose receiver is dropped or merely in '
+             'transit inside an undelivered message, compared with Ideal.run; every case non-trivial'),
+    'explanation': ('no-hang proved on a reference model of the dedicated socket (who keeps its receiving end alive); error / in-transit clauses proved on the specification; the real '
+                    'crate is exercised at every position and compared with the specification'),
+    'assumptions': ['kernel: send to a released peer fails with EPIPE/ECONNRESET and wakes a blocked sender; MSG_NOSIGNAL is not used, the Rust runtime ignores SIGPIPE, a child with SIG_DFL is tested'],
+    'level_text': ('Kernel-checked: in the repaired protocol no reachable state has a sender waiting on a dedicated socket that only it keeps alive (the pre-fix variant has a reachable '
+                   'stuck state); the specification makes sends fail iff the receiving end exists nowhere and succeed while it is in transit; real sends to vanished receivers '
+                   'checked for error / no hang / no signal'),
+    'level_note': 'Trusted: Lean kernel, harness; kernel wake-up of a blocked sender; the NoHang model is a hand-written abstraction of send() tied by the vanish scenario only',
+}
+PROPS['C19'] = {
+    'modules': ['IpcModel.Props.C03', 'IpcModel.Props.C09'],
+    'theorems': ['C03.C03_iff', 'C09.C09_error', 'C09.C09_transit'],
+    'builds': ['default', 'memfd', 'force-inprocess'],
+    'scenarios': world_scen(['default', 'memfd', 'force-inprocess'], 300, 6000),
+    'search': search_world,
+    'rule': ('the same seeded single-threaded program (same seed => same operation choices as long as results agree) of ~40 operations over up to 6 channels is executed on the '
+             'OS transport, the memfd build and the in-process transport; each result sequence is compared with Ideal.run (hence pairwise); non-trivial = a message with handles '
+             'was received; distinct = distinct (build, program)'),
+    'explanation': 'three-way differential against the executable specification; the clauses of the specification are theorems; the refinement is not',
+    'assumptions': ['programs are restricted to operations whose outcome the ideal model defines; receiver sets and one-shot servers are compared in C06/C08 scenarios, not here'],
+    'level_text': ('The specification (ideal unbounded FIFO with handle-carrying messages, existence = reachability) is executable Lean with its receive/send clauses proved; all three '
+                   'builds are run on the same seeded programs and must produce exactly the specification\'s result sequence (differential, partial: no refinement theorem)'),
+    'level_note': 'Trusted: Lean kernel for the specification clauses only; agreement of the transports with it is established by differential execution',
+    'technique': 'executable Lean specification + three-way differential execution (refinement not proved)',
+}
